@@ -505,6 +505,21 @@ func cases(rs []request, maxLen int) []caseT {
 			}
 		}
 	}
+	// the multi-megabyte request needs big tables on the simulated disk (tens of megabytes of address space per world, in
+	// workers that run under an address-space limit): it is explored alone and followed by one ordinary request, not in
+	// every pair
+	kept := out[:0]
+	for _, c := range out {
+		big := false
+		for _, r := range c.Seq {
+			big = big || strings.Contains(rs[r].Name, "2.4 MB")
+		}
+		if big && len(c.Seq) == 2 && !(strings.Contains(rs[c.Seq[0]].Name, "2.4 MB") && rs[c.Seq[1]].Name == "List(withSize)") {
+			continue
+		}
+		kept = append(kept, c)
+	}
+	out = kept
 	for i := range out {
 		for _, r := range out[i].Seq {
 			out[i].Names = append(out[i].Names, rs[r].Name)
@@ -522,6 +537,10 @@ type result struct {
 	}
 }
 
+const c11Keys = `^(panic:|caller-never-returns)`
+
+var c11Env = []string{"VERIF_PART_MAXBOUND=2", "VERIF_PART_SCENARIOS=^(A-|E-|F-|D-no-leader-batch)", "VERIF_PART_SKIP_BEFORE=1"}
+
 func main() {
 	rs := alphabet()
 	thorough := os.Getenv("VERIF_TIER") == "thorough"
@@ -532,6 +551,9 @@ func main() {
 	work := os.Getenv("VERIF_WORK")
 	if work == "" {
 		work = os.TempDir()
+	}
+	if len(os.Args) > 2 && os.Args[1] == "--replay" && ev.PartOf(os.Args[2]) == "C11" {
+		ev.ReplayPart("C12", os.Getenv("VERIF_BIN_C11"), c11Keys, os.Args[2], c11Env...)
 	}
 	if len(os.Args) > 2 && os.Args[1] == "--replay" {
 		var f struct {
@@ -560,16 +582,22 @@ func main() {
 	if si, sn, ok := shard.Child(); ok {
 		res := result{Complete: true}
 		deadline := time.Now().Add(budget)
-		resume := 0
+		resume, only := 0, -1
 		for k, a := range os.Args {
 			if a == "--resume" && k+1 < len(os.Args) {
 				fmt.Sscan(os.Args[k+1], &resume)
 			}
+			if a == "--only" && k+1 < len(os.Args) {
+				fmt.Sscan(os.Args[k+1], &only)
+			}
 		}
 		journalPath := filepath.Join(work, fmt.Sprintf("journal.%d", si))
+		if only >= 0 {
+			journalPath += ".only"
+		}
 		seen := map[string]bool{}
 		for i, c := range all {
-			if i%sn != si || i < resume {
+			if i%sn != si || i < resume || only >= 0 && i != only {
 				continue
 			}
 			if !thorough && len(c.Seq) == 2 && !c.Prefix {
@@ -598,6 +626,7 @@ func main() {
 	run := ev.Start("C12", "model_checking")
 	const n = 16
 	total, complete := 0, true
+	workerRestarts := 0
 	shard.MemLimitKB = 4 << 20
 	var mu sync.Mutex
 	var wg sync.WaitGroup
@@ -637,6 +666,27 @@ func main() {
 				if strings.Contains(tail, "out of memory") || strings.Contains(tail, "cannot allocate") {
 					reason = "out-of-memory"
 				}
+				{
+					// a worker serves thousands of sequences in one address space and shares the machine with 15 others: before the
+					// sequence is blamed for a death (memory, a thread the OS would not give) it is served once more by a fresh
+					// worker of its own (same limits). Only a death there is the sequence's doing.
+					mu.Unlock()
+					raw2, _, _ := shard.RunOne("--shard", fmt.Sprintf("%d/%d", si, n), "--only", fmt.Sprint(j.Index))
+					mu.Lock()
+					if raw2 != nil {
+						var r2 result
+						if json.Unmarshal(raw2, &r2) == nil {
+							for _, v := range r2.Violations {
+								run.Violation(v.Key, v.Desc, v.Case)
+							}
+						}
+						total++
+						workerRestarts++
+						resume = j.Index + 1
+						mu.Unlock()
+						continue
+					}
+				}
 				var kinds []string
 				for _, nm := range j.Case.Names {
 					if i := strings.Index(nm, "("); i > 0 {
@@ -660,7 +710,11 @@ func main() {
 		"handlers are driven in-process through the real service objects on a server built by the real Server.setup(); flag parsing, the listener and TLS are not explored",
 		"a blocked handler is given up only after every deadline it created has fired three times over",
 	}
+	// requests do not come one at a time: the write path under interleaved callers, timers and a restart is explored by
+	// C11's scenarios; they count here for what ends the process - a panic on any thread - or leaves a request hanging
+	run.RunPart("concurrent-requests-C11", os.Getenv("VERIF_BIN_C11"), c11Keys, c11Env...)
 	run.Finish(ev.Coverage{
+		"workers_restarted_for_memory":  workerRestarts,
 		"states":                        total,
 		"transitions":                   total,
 		"traces_validated_against_impl": total,
